@@ -22,6 +22,10 @@ Expected(e) ==
          DiffRounded(DT(e.args.recv, Midnight), DT(e.args.other, Midnight), St(e).largest, St(e).smallest, St(e).inc, St(e).mode, e.op = "PlainDate.since")
     [] e.op \in {"PlainDateTime.until", "PlainDateTime.since"} ->
          DiffRounded(InDT(e.args.recv), InDT(e.args.other), St(e).largest, St(e).smallest, St(e).inc, St(e).mode, e.op = "PlainDateTime.since")
+    \* year-months count whole months from the first of the month (C18), rounded like plain dates
+    [] e.op \in {"PlainYearMonth.until", "PlainYearMonth.since"} ->
+         DiffRounded(DT(Date(e.args.recv.y, e.args.recv.m, 1), Midnight), DT(Date(e.args.other.y, e.args.other.m, 1), Midnight),
+                     St(e).largest, St(e).smallest, St(e).inc, St(e).mode, e.op = "PlainYearMonth.since")
 Matches(e) ==
   LET x == Expected(e)
   IN IF e.op = "Duration.total" /\ x.kind = "ok"
@@ -32,6 +36,7 @@ ClsOf(e) ==
   CASE e.op = "Duration.round" -> "sm-" \o St(e).smallest \o "/lg-" \o St(e).largest \o Eom(e.args.rel) \o (IF DurSign(e.args.recv) < 0 THEN "/neg" ELSE "/pos")
     [] e.op = "Duration.total" -> e.args.unit \o Eom(e.args.rel) \o (IF DurSign(e.args.recv) < 0 THEN "/neg" ELSE "/pos")
     [] e.op = "Duration.compare" -> (IF HasCalendarUnits(e.args.recv) \/ HasCalendarUnits(e.args.other) THEN "calendar" ELSE "days-time")
+    [] e.op \in {"PlainYearMonth.until", "PlainYearMonth.since"} -> "sm-" \o St(e).smallest \o "/lg-" \o St(e).largest \o (IF St(e).inc = 1 THEN "/inc1" ELSE "/inc>1")
     [] OTHER -> "sm-" \o St(e).smallest \o "/lg-" \o St(e).largest \o Eom(e.args.recv)
 TInit == l = 1
 TNext == /\ l <= NEv /\ l' = l + 1
